@@ -23,7 +23,7 @@ OUTSIDE = 'longer signals; symbolic noise in the cap clause (noise is a fixed se
           'ensemble members that return different numbers of IMFs (the ensemble then raises, nothing is returned)'
 ASSUMPTIONS = ['multiprocessing.Pool modelled as an inline order-preserving starmap', 'rilling_stop replaced by its formula (C04 unit clause)',
                'cap clause: np.random concretised to the stream after np.random.seed(7) (same stream in the replay)']
-REQUIRED_CLASSES = ['peel:two-imfs', 'peel-mask:two-imfs', 'cap:hit', 'cap:not-hit']
+REQUIRED_CLASSES = ['peel:two-imfs', 'peel-mask:two-imfs', 'cap:hit', 'cap:not-hit', 'peel:integer-input']
 EXPECTED_LABELS = ['peel-never-raises', 'capped-equals-prefix', 'column-is-next-imf-of-residual', 'mask-capped-equals-prefix',
                    'mask-column-is-next-imf-of-residual', 'returns-array', 'cap-respected', 'finite']
 BUDGET_S = {'quick': 170, 'thorough': 900}
@@ -38,6 +38,8 @@ def configs(tier):
     if not q:
         out.append(('peel-sift-N7-fixed1', {'kind': 'peel', 'N': 7, 'stop': 'fixed1', 'step': '1', 'interp': 'splrep', 'w': 2}))
         out.append(('peel-sift-N6-fixed1-pchip', {'kind': 'peel', 'N': 6, 'stop': 'fixed1', 'step': '1/2', 'interp': 'pchip', 'w': 1}))
+    # integer-dtype recordings (raw ADC counts): the components are real-valued, nothing may be cast back to the input dtype
+    out.append(('peel-sift-N6-fixed1-int-input', {'kind': 'peel', 'N': 6, 'stop': 'fixed1', 'step': '1', 'interp': 'splrep', 'w': 2, 'int_input': True}))
     out.append(('peel-mask-N6-list', {'kind': 'peelmask', 'N': 6, 'freqs': [0.3, 0.125, 0.05], 'nphases': 1 if q else 2}))
     if not q:
         out.append(('peel-mask-N6-float', {'kind': 'peelmask', 'N': 6, 'freqs': 0.25, 'nphases': 2}))
@@ -122,7 +124,11 @@ def col_is_zero(col):
 
 def peel(h):
     N = h.params['N']
-    X = h.reals('x', N)
+    if h.params.get('int_input'):
+        X = h.int_array('x', N, -8, 8)
+        h.note('peel:integer-input')
+    else:
+        X = h.reals('x', N)
     imf_opts, env_opts, ext_opts = common.sift_options(h, h.params)
     kw = dict(imf_opts=imf_opts, envelope_opts=env_opts, extrema_opts=ext_opts)
     with common.rilling_model(h, enabled=h.params['stop'] == 'rilling'), common.trace_sift(max_gni=60, max_env=400):
